@@ -217,13 +217,24 @@ def tilt_case(draw, tier="quick"):
             dist = sx * np.sqrt(1 + t0 ** 2)
             d1 = wl - d0 * dist
             extras.append({"kind": kind, "trace": [t0, t1], "dispersion": [d0, d1]})
+    # one case in five (when nothing is fitted): the aperture itself rides on a Tilt plane placed after a clear
+    # pupil - by construction, so that this class does not depend on the drawn extras
+    carrier = ramp_repr in ("opd", "none") and draw(st.integers(0, 4)) <= 1
+    if carrier and not any(e["kind"] == "tilt_after" for e in extras):
+        extras.insert(draw(st.integers(0, len(extras))), {"kind": "tilt_after", "x": ang(0), "y": ang(1)})
     wf_tilt = [ang(0), ang(1)] if draw(st.sampled_from([False, False, True])) else None
     # a steering mirror: a Tilt plane with its own surface (a ramp) that was fit_tilt()-ed, after the aperture
     steer = {"x": ang(0), "y": ang(1), "a": ang(0), "b": ang(1)} if draw(st.integers(0, 3)) == 0 else None
+    if steer is not None and draw(st.booleans()):
+        # by construction: the fields that reach the steering mirror carry no tilt at all (nothing fitted, no wavefront
+        # tilt, no tilt element before the aperture, aperture on the pupil)
+        ramp_repr = draw(st.sampled_from(["opd", "none"]))
+        wf_tilt, carrier = None, False
+        extras = [e for e in extras if not e["kind"].endswith("before")]
     return {"steer": steer, "shape": list(shape), "amp": amp, "opd": opd, "labels": labels, "segmented": segmented,
             "dx": draw(cm.scalar_or_pair(samp["dx"])), "du": list(du), "z": z, "wavelength": wl, "oversample": os_,
             "out_shape": out_shape, "prop_shape": prop_shape, "seg_angles": seg_angles, "ramp_repr": ramp_repr,
-            "extras": extras, "wf_tilt": wf_tilt}
+            "extras": extras, "wf_tilt": wf_tilt, "carrier": carrier}
 
 
 def dispersive_xy(trace, dispersion, wl):
@@ -310,7 +321,10 @@ def propagate(case, ctx):
     # --- lentil ---------------------------------------------------------------------------------
     opd_in = opd_total.copy() if steer is None else opd_total - ramp(shape, dx, steer["a"], steer["b"]) * (labels != 0)
     with lentil_call("C04.propagate.build", "planes"):
-        pupil = lentil.Pupil(amplitude=case["amp"].copy(), opd=opd_in, mask=mask_arg.copy(),
+        # (the OPD / amplitude maps as plain arrays, masked arrays with flagged samples or ndarray subclasses)
+        opd_arg, acls = gen.array_class(opd_in, int(np.count_nonzero(labels)) + 3 * shape[0] + shape[1])
+        ctx.tag("opd_class:" + acls)
+        pupil = lentil.Pupil(amplitude=gen.array_class(case["amp"].copy(), shape[0] + 2 * shape[1] + k)[0], opd=opd_arg, mask=mask_arg.copy(),
                              pixelscale=cm.as_ps(case["dx"]), focal_length=z)
         if case["ramp_repr"] == "fit":
             fitted = pupil.fit_tilt(inplace=False)
@@ -325,7 +339,7 @@ def propagate(case, ctx):
         # the tilt classes take the Plane parameters too: half of the time (when nothing is fitted) the aperture
         # itself - amplitude, OPD, (segmented) mask - rides on the first Tilt plane after a clear pupil
         carrier = None
-        if case["ramp_repr"] in ("opd", "none") and (shape[0] + shape[1] + k) % 2 == 0:
+        if case["ramp_repr"] in ("opd", "none") and case.get("carrier", (shape[0] + shape[1] + k) % 2 == 0):
             carrier = next((i for i, e in enumerate(case["extras"]) if e["kind"] == "tilt_after"), None)
         if carrier is not None:
             ctx.tag("aperture_on_tilt_plane", "aperture_on_tilt_plane:segmented" if case["segmented"] else None)
@@ -345,7 +359,8 @@ def propagate(case, ctx):
         w_mid = w * pupil
         w = w_mid
         if steer is not None:
-            ctx.tag("steering_mirror", "steering_mirror:multi_field" if k >= 2 else None)
+            ctx.tag("steering_mirror", "steering_mirror:multi_field" if k >= 2 else None,
+                    "steering_mirror:untilted_fields" if k >= 2 and all(not f.tilt for f in w.data) else None)
             mirror = lentil.Tilt(x=steer["x"], y=steer["y"], amplitude=np.ones(shape), opd=ramp(shape, dx, steer["a"], steer["b"]),
                                  pixelscale=cm.as_ps(case["dx"])).fit_tilt(inplace=False)
             w = w * mirror
@@ -383,8 +398,14 @@ def fit_case(draw, tier="quick"):
     k = int(labels.max())
     dxr = draw(gen.pos_log(1e-4, 1e-1))
     dx = (dxr, dxr * draw(st.sampled_from([1.0, 1.0, 0.5, 3.0])))
+    angles = [[draw(gen.finite(-1e-4, 1e-4)), draw(gen.finite(-1e-4, 1e-4))] for _ in range(k)]
+    if segmented and k >= 2 and draw(st.booleans()):
+        # one exactly flat, untilted segment among tilted ones (its fitted tip/tilt is exactly zero)
+        flat = draw(st.integers(1, k))
+        opd = np.where(labels == flat, 0.0, opd)
+        angles[flat - 1] = [0.0, 0.0]
     return {"shape": list(shape), "amp": amp, "opd": opd, "labels": labels, "segmented": segmented, "dx": list(dx),
-            "angles": [[draw(gen.finite(-1e-4, 1e-4)), draw(gen.finite(-1e-4, 1e-4))] for _ in range(k)],
+            "angles": angles,
             "inplace": draw(st.booleans()), "outside_seed": draw(st.integers(0, 2**31 - 1))}
 
 
@@ -403,11 +424,14 @@ def fit_tilt(case, ctx):
         opd = opd + ramp(shape, dx, tx, ty) * m
     mask_arg = cube(labels) if case["segmented"] else (labels != 0).astype(int)
     ctx.tag("segmented" if case["segmented"] else "monolithic", f"k:{k}", "inplace" if case["inplace"] else "copy",
-            "per_axis_dx" if dx[0] != dx[1] else None)
+            "per_axis_dx" if dx[0] != dx[1] else None,
+            "flat_segment_among_tilted" if k >= 2 and any(not np.any(opd[m]) for m in segm) and any(np.any(opd[m]) for m in segm) else None)
     ctx.nontrivial_if(any(abs(a) > 0 for ang in case["angles"] for a in ang))
     opd_in = opd.copy()
     with lentil_call("C04.fit", "fit_tilt"):
-        plane = lentil.Pupil(amplitude=case["amp"].copy(), opd=opd_in, mask=mask_arg.copy(), pixelscale=dx,
+        opd_arg, acls = gen.array_class(opd_in, int(np.count_nonzero(labels)) + 3 * shape[0] + shape[1])
+        ctx.tag("opd_class:" + acls)
+        plane = lentil.Pupil(amplitude=case["amp"].copy(), opd=opd_arg, mask=mask_arg.copy(), pixelscale=dx,
                              focal_length=1.0)
         fitted = plane.fit_tilt(inplace=case["inplace"])
     if case["inplace"]:
@@ -630,7 +654,10 @@ def history(case, ctx):
     fitted_since_update = True
     refit_after_update = False
     with lentil_call("C04.history.build", "Pupil"):
-        plane = lentil.Pupil(amplitude=case["amp"].copy(), opd=case["opd"].copy(), mask=mask_arg.copy(),
+        acl_sel = int(np.count_nonzero(union)) + 3 * shape[0] + shape[1]
+        opd_arg, acls = gen.array_class(case["opd"].copy(), acl_sel)
+        ctx.tag("opd_class:" + acls)
+        plane = lentil.Pupil(amplitude=case["amp"].copy(), opd=opd_arg, mask=mask_arg.copy(),
                              pixelscale=dx, focal_length=z)
     cur_opd_model = case["opd"].copy()          # what plane.opd should hold now (inside the mask)
     kept = []         # wavefronts formed along the way: later in-place work on the plane must not reach them
@@ -644,14 +671,14 @@ def history(case, ctx):
         with lentil_call("C04.history." + op, op):
             if op == "ramp":
                 r = ramp(shape, dx, st_["x"], st_["y"]) * union
-                plane.opd = np.asarray(plane.opd) + r
+                plane.opd = gen.array_class(np.asarray(plane.opd) + r, acl_sel + si)[0]
                 eff = eff + r
                 fitted_since_update = False
             elif op == "aberration":
                 c = np.random.default_rng(st_["seed"]).normal(size=5)
                 ab = (c[0] * x_ * y_ + c[1] * x_ ** 2 + c[2] * y_ ** 2 + c[3] * x_ + c[4] * y_)
                 ab = ab / max(cm.max_abs(ab), 1e-300) * st_["waves"] * wl * union
-                plane.opd = np.asarray(plane.opd) + ab
+                plane.opd = gen.array_class(np.asarray(plane.opd) + ab, acl_sel + si)[0]
                 eff = eff + ab
                 fitted_since_update = False
             elif op in ("fit_inplace", "fit_copy_replace"):
